@@ -443,6 +443,29 @@ def _s5(program, model, res):
                         f"un-limited order_rows is semantically removable", rets[0])
     if "OrderRowsNode" not in names or "ViewRepresentation" not in names:
         raise AnalysisError("anchor vanished: is_trivial_when_intermediate_ on ViewRepresentation/OrderRowsNode")
+    # the one consumer that reads the incoming row order: order_rows with no order columns (a bare limit keeps "the first rows").
+    # Skipping the preceding order_rows is only sound when the new step brings its own order columns.
+    ob = model.base.methods.get("order_rows")
+    if ob is None:
+        raise AnalysisError("anchor vanished: ViewRepresentation.order_rows")
+    res.analysed(ob)
+    g = cfgmod.build(ob.node)
+    d = depsmod.Deps(g, ob.params())
+    dels = [r for r in g.returns() if isinstance(r.stmt.value, ast.Call) and isinstance(r.stmt.value.func, ast.Attribute)
+            and r.stmt.value.func.attr == "order_rows" and unparse(r.stmt.value.func.value).startswith("self.sources[0]")]
+    if not dels:
+        raise AnalysisError("ViewRepresentation.order_rows: delegation past a trivial intermediate not found")
+    for r in dels:
+        roots = set()
+        for (b, _l) in g.lexical_guards(r):
+            roots |= d.cond_roots(b)
+        if "columns" in roots:
+            res.ok("C06-S5", "order_rows skips a preceding un-limited order_rows only under a condition on its own order columns")
+        else:
+            res.fail_at("C06-S5", ob, "bare-limit-skips-ordering",
+                        f"`{unparse(r.stmt)[:70]}` removes the preceding order_rows whatever `columns` is: d.order_rows(['x']).order_rows([], limit=2) "
+                        f"then takes the first two rows of the *unsorted* table, while applying the second step to the materialised result of the first "
+                        f"keeps the two smallest x", r.stmt)
 
 
 def run(program, res, tier):
